@@ -194,9 +194,17 @@ func run(cs caseSpec) (res result, err error) {
 	} else {
 		res.classes = append(res.classes, "verify-on-setup-connection")
 	}
-	if verr := refctl.VerifyAndSecureAs(cl, ctrl, sr.AccLTPK, sr.AccID, append(cs.Entropy, 1)); verr != nil {
+	if len(sr.Format) > 0 {
+		return res, fmt.Errorf("pair-setup completes, but the accessory's messages do not have the layout the specification gives them: %s", strings.Join(sr.Format, "; "))
+	}
+	shared, vformat, verr := refctl.PairVerifyReport(cl, ctrl, sr.AccLTPK, sr.AccID, append(cs.Entropy, 1))
+	if verr != nil {
 		return res, fmt.Errorf("pair-verify: %v", verr)
 	}
+	if len(vformat) > 0 {
+		return res, fmt.Errorf("pair-verify completes, but the accessory's messages do not have the layout the specification gives them: %s", strings.Join(vformat, "; "))
+	}
+	cl.Secure(shared)
 	cl.FrameSizes = cs.OutFrames
 
 	// encrypted requests
